@@ -57,6 +57,13 @@ type Shape struct {
 	B   V3        `json:"b"`
 	R   []float64 `json:"r,omitempty"`
 	Sub []Shape   `json:"sub,omitempty"`
+	Pts []LP      `json:"pts,omitempty"` // vline: sdf.VarryingThicknessLine(points with radii)
+}
+
+// LP is one sdf.LinePoint.
+type LP struct {
+	P V3      `json:"p"`
+	R float64 `json:"r"`
 }
 
 type evalDesc struct {
@@ -100,6 +107,12 @@ func build(s Shape) sample.Vec3ToFloat {
 		return sdf.Subtract(build(s.Sub[0]), build(s.Sub[1]))
 	case "translate":
 		return sdf.Translate(build(s.Sub[0]), s.A.vec())
+	case "vline":
+		lps := make([]sdf.LinePoint, len(s.Pts))
+		for i, lp := range s.Pts {
+			lps[i] = sdf.LinePoint{Point: lp.P.vec(), Radius: lp.R}
+		}
+		return sdf.VarryingThicknessLine(lps)
 	}
 	panic("unknown shape " + s.T)
 }
@@ -158,8 +171,30 @@ func coqShape(s Shape) string {
 		return "(SSubtract " + coqShape(s.Sub[0]) + " " + coqShape(s.Sub[1]) + ")"
 	case "translate":
 		return "(STranslate " + coqShape(s.Sub[0]) + " " + vq(s.A) + ")"
+	case "vline":
+		it := make([]string, len(s.Pts))
+		for i, lp := range s.Pts {
+			it[i] = "(" + vq(lp.P) + ", " + fq(lp.R) + ")"
+		}
+		return "(SVLine [" + strings.Join(it, "; ") + "])"
 	}
 	panic("unknown shape " + s.T)
+}
+
+// vlineInCoq: Check/C19.v has the constructor SVLine (the generated VarryingThicknessLine)
+const vlineInCoq = false
+
+// coqable: the shape can be rendered as a Check.C19 shape
+func coqable(s Shape) bool {
+	if s.T == "vline" && !vlineInCoq {
+		return false
+	}
+	for _, c := range s.Sub {
+		if !coqable(c) {
+			return false
+		}
+	}
+	return true
 }
 
 // ---- independent float references (written by cases, not with the Quilez one-liners)
@@ -237,8 +272,48 @@ func ref(s Shape, p V3) (float64, bool) {
 		return math.Hypot(math.Max(dx, 0), math.Max(dy, 0)) - s.R[1], true
 	case "rcone":
 		return coneBrute(s.A, s.B, s.R[0], s.R[1], p), true
+	case "vline": // the union of the rounded cones between consecutive points
+		if len(s.Pts) < 2 {
+			return 0, false
+		}
+		m := math.Inf(1)
+		for i := 1; i < len(s.Pts); i++ {
+			m = math.Min(m, coneBrute(s.Pts[i-1].P, s.Pts[i].P, s.Pts[i-1].R, s.Pts[i].R, p))
+		}
+		return m, true
+	// operators, recursively from the references of the leaves (never through the implementation)
+	case "union", "intersect":
+		var m float64
+		for i, c := range s.Sub {
+			v, ok := ref(c, p)
+			if !ok {
+				return 0, false
+			}
+			if i == 0 || (s.T == "union" && v < m) || (s.T == "intersect" && v > m) {
+				m = v
+			}
+		}
+		return m, len(s.Sub) > 0
+	case "subtract":
+		a, ok1 := ref(s.Sub[0], p)
+		b, ok2 := ref(s.Sub[1], p)
+		return math.Max(a, -b), ok1 && ok2
+	case "translate":
+		return ref(s.Sub[0], p.sub(s.A))
 	}
 	return 0, false
+}
+
+// refTol: relative tolerance of the reference (the cone's is a golden-section search)
+func refTol(s Shape) float64 {
+	t := 1e-9
+	if s.T == "rcone" || s.T == "vline" {
+		t = 1e-7
+	}
+	for _, c := range s.Sub {
+		t = math.Max(t, refTol(c))
+	}
+	return t
 }
 
 // operator / translate oracle: the value must be EXACTLY the pointwise combination of the operands' values
@@ -279,6 +354,12 @@ func scaleOf(s Shape, p V3) float64 {
 		}
 		for _, x := range s.R {
 			m = math.Max(m, math.Abs(x))
+		}
+		for _, lp := range s.Pts {
+			m = math.Max(m, math.Abs(lp.R))
+			for _, x := range lp.P {
+				m = math.Max(m, math.Abs(x))
+			}
 		}
 		for _, c := range s.Sub {
 			walk(c)
@@ -341,17 +422,15 @@ func (h *H) addEval(d evalDesc, kind string) {
 		c.Coq = "CGo"
 		c.GoFail = fmt.Sprintf("value is %v", out)
 	default:
-		c.Coq = fmt.Sprintf("(CEval %s %s %s %s %s)", hx.CoqBool(d.Exact), coqShape(d.Shape), vq(d.P), fq(out), fq(tol))
-		if want, ok := combine(d.Shape, d.P); ok {
-			if want != out && !(math.IsNaN(want) && math.IsNaN(out)) {
-				c.GoFail = fmt.Sprintf("%s value %v differs from the pointwise combination %v of its operands' values", d.Shape.T, out, want)
-			}
+		c.Coq = "CGo"
+		if coqable(d.Shape) {
+			c.Coq = fmt.Sprintf("(CEval %s %s %s %s %s)", hx.CoqBool(d.Exact), coqShape(d.Shape), vq(d.P), fq(out), fq(tol))
+		}
+		if want, ok := combine(d.Shape, d.P); ok && want != out && !(math.IsNaN(want) && math.IsNaN(out)) {
+			c.GoFail = fmt.Sprintf("%s value %v differs from the pointwise combination %v of its operands' values", d.Shape.T, out, want)
 		} else if want, ok := ref(d.Shape, d.P); ok {
-			rt := tol
-			if d.Shape.T == "rcone" {
-				rt = 1e-7 * scale
-			}
-			if math.Abs(want-out) > rt {
+			// independent reference of the whole tree (operators recursively from the leaves' references)
+			if math.Abs(want-out) > refTol(d.Shape)*scale {
 				c.GoFail = fmt.Sprintf("%s value %v differs from the reference distance %v", d.Shape.T, out, want)
 			}
 		}
@@ -379,7 +458,10 @@ func (h *H) addPair(d pairDesc, kind string) {
 		c.Coq = "CGo"
 		c.GoFail = fmt.Sprintf("values %v, %v", fp, fqv)
 	default:
-		c.Coq = fmt.Sprintf("(CPair %s %s %s %s %s)", coqShape(d.Shape), vq(d.P), vq(d.Q), fq(fp), fq(fqv))
+		c.Coq = "CGo"
+		if coqable(d.Shape) {
+			c.Coq = fmt.Sprintf("(CPair %s %s %s %s %s)", coqShape(d.Shape), vq(d.P), vq(d.Q), fq(fp), fq(fqv))
+		}
 		if math.Abs(fp-fqv) > dist*(1+1e-9)+1e-12 {
 			c.GoFail = fmt.Sprintf("|f p - f q| = %v > |p - q| = %v (ratio %v)", math.Abs(fp-fqv), dist, math.Abs(fp-fqv)/dist)
 		}
@@ -453,6 +535,11 @@ func main() {
 			if json.Unmarshal(in.Raw, &d) == nil {
 				h.addScaled(d)
 			}
+		case "lip-scaled":
+			var d scaledPairDesc
+			if json.Unmarshal(in.Raw, &d) == nil {
+				h.addScaledPair(d)
+			}
 		case "seq":
 			var d seqDesc
 			if json.Unmarshal(in.Raw, &d) == nil {
@@ -506,13 +593,56 @@ func main() {
 		s := genPrimitive(r, t)
 		h.addExact(evalDesc{s, genPointNear(r, s), false})
 	}
+	// region coverage: every Voronoi region of every primitive, pairs straddling every region boundary (region.go)
+	reps := 1
+	if run.Tier == "thorough" {
+		reps = 8
+	}
+	h.regionStream(r, reps)
+	// long operator chains (3..10 steps), pure translate chains of many tiny steps (up to 60), wide n-ary operators
+	for i := 0; i < n/10+6; i++ {
+		var s Shape
+		switch i % 3 {
+		case 0:
+			s = genChain(r, r.Range(3, 10), false)
+		case 1:
+			s = genChain(r, hx.Pick(r, []int{2, 5, 20, 60}), true)
+		default:
+			s = genWide(r)
+		}
+		h.run.Count("chain:" + []string{"mixed", "translate", "wide"}[i%3])
+		p := genPointNear(r, s)
+		h.addEval(evalDesc{s, p, false}, "eval")
+		sc := hx.Pick(r, regionScales)
+		h.addScaled(scaledDesc{Shape: s, K: sc.K, S: sc.S, P: p})
+		if i%2 == 0 {
+			h.addPair(pairDesc{s, p, genNeighbour(r, s, p)}, "lip")
+		}
+	}
+	// sdf.VarryingThicknessLine: the union of the rounded cones between consecutive points
+	for _, d := range fixedVLines() {
+		h.addEval(d, "eval")
+	}
+	for i := 0; i < n/8+6; i++ {
+		s := genVLine(r)
+		p := genPointNear(r, s)
+		h.run.Count(fmt.Sprintf("vline:points=%d", len(s.Pts)))
+		h.addEval(evalDesc{s, p, false}, "eval")
+		if i%3 == 0 {
+			h.addPair(pairDesc{s, p, genNeighbour(r, s, p)}, "lip")
+		}
+		if i%3 == 1 {
+			sc := hx.Pick(r, regionScales)
+			h.addScaled(scaledDesc{Shape: s, K: sc.K, S: sc.S, P: genPointNear(r, s)})
+		}
+	}
 	// scale dimension: every shape stream again with all lengths and the point multiplied by 2^k, k in -40..20
 	for _, d := range fixedScaled(r) {
 		h.addScaled(d)
 	}
 	for i := 0; i < n/3; i++ {
 		s := genShape(r, 1)
-		h.addScaled(scaledDesc{s, r.Range(-40, 20), genPointNear(r, s)})
+		h.addScaled(scaledDesc{Shape: s, K: r.Range(-40, 20), P: genPointNear(r, s)})
 	}
 	// constructor side effects / aliasing: operator constructors on one shared caller-owned slice, in every order
 	for i, d := range fixedSeqs() {
